@@ -43,6 +43,8 @@ typedef struct { int nb; int ngeomnames; } scene_info;
 static void gname(char* buf, int i) { snprintf(buf, 32, "g%d", i); }
 static void bname(char* buf, int i) { snprintf(buf, 32, "b%d", i); }
 
+static void random_inertial(mjg_rng* r, mjsBody* b);
+
 static int add_geoms(mjg_rng* r, mjsBody* body, int ng, int* ngeom, int allow_plane, double sz) {
   static const int masks[8] = {1, 1, 1, 2, 3, 4, 5, 0};
   for (int k = 0; k < ng; k++) {
@@ -118,6 +120,7 @@ static mjSpec* scene_spec(uint64_t seed, int nb) {
     }
     int ng = mjg_chance(r, 0.5) ? 1 : 1 + mjg_int(r, 4);
     add_geoms(r, body, ng, &ngeom, 0, sz);
+    if (mjg_chance(r, 0.25)) random_inertial(r, body);
     // mass for welded/any bodies comes from geoms (density default)
   }
   // explicit pairs
@@ -139,6 +142,103 @@ static mjSpec* scene_spec(uint64_t seed, int nb) {
     mjs_setString(e->bodyname1, n1); mjs_setString(e->bodyname2, n2);
   }
   free(bodies);
+  return s;
+}
+
+// explicit inertial frame, decoupled from the body frame and from the geoms (xipos != xpos, ximat != xmat)
+static void random_inertial(mjg_rng* r, mjsBody* b) {
+  b->explicitinertial = 1;
+  b->mass = mjg_range(r, 0.2, 3);
+  for (int i = 0; i < 3; i++) { b->ipos[i] = mjg_range(r, -0.3, 0.3); b->inertia[i] = mjg_range(r, 0.1, 0.15); }
+  mjg_quat(r, b->iquat);
+}
+
+// "margin" scenes (nb < 0): free multi-geom bodies whose geoms carry large margins / gaps, placed so that the surface
+// distance between a geom of the new body and a geom of an earlier body is f * (sum of their margins and gaps), f in
+// [-0.6, 1.2]: many geom pairs are separated but within margin, others just outside; no state perturbation afterwards
+static mjSpec* margin_spec(uint64_t seed, int nb) {
+  mjg_rng R = { seed * 0x9E3779B97F4A7C15ULL + 31337 }; mjg_rng* r = &R;
+  mjSpec* s = mj_makeSpec();
+  s->memory = 1 << 26;
+  mjsBody* world = mjs_findBody(s, "world");
+  int ngeom = 0; char nm[32];
+  // per placed geom: world centre, bounding radius, margin + gap
+  double gc[256][3], gr[256], gm[256]; int ng_all = 0;
+  if (mjg_chance(r, 0.3)) {     // a static geom with margin in the world body
+    mjsGeom* g = mjs_addGeom(world, NULL); gname(nm, ngeom++); mjs_setName(g->element, nm);
+    g->type = mjGEOM_BOX; g->size[0] = g->size[1] = 0.3; g->size[2] = 0.1; g->pos[2] = -0.6;
+    g->margin = mjg_chance(r, 0.7) ? mjg_range(r, 0.03, 0.3) : 0;
+  }
+  for (int b = 0; b < nb; b++) {
+    mjsBody* body = mjs_addBody(world, NULL); bname(nm, b); mjs_setName(body->element, nm);
+    mjsJoint* j = mjs_addJoint(body, NULL); j->type = mjJNT_FREE;
+    double q[4] = {1, 0, 0, 0}; if (mjg_chance(r, 0.6)) mjg_quat(r, q);
+    for (int i = 0; i < 4; i++) body->quat[i] = q[i];
+    int ng = mjg_chance(r, 0.25) ? 1 : 2 + mjg_int(r, 3);
+    double bm = mjg_chance(r, 0.8) ? mjg_range(r, 0.03, 0.3) : 0;      // body-wide margin style
+    double lpos[8][3], lr[8], lm[8];
+    for (int k = 0; k < ng; k++) {
+      mjsGeom* g = mjs_addGeom(body, NULL); gname(nm, ngeom++); mjs_setName(g->element, nm);
+      int t = mjg_int(r, 8);
+      g->type = t <= 3 ? mjGEOM_SPHERE : t == 4 ? mjGEOM_CAPSULE : t == 5 ? mjGEOM_ELLIPSOID : t == 6 ? mjGEOM_CYLINDER : mjGEOM_BOX;
+      for (int i = 0; i < 3; i++) g->size[i] = mjg_range(r, 0.06, 0.16);
+      for (int i = 0; i < 3; i++) g->pos[i] = mjg_range(r, -0.35, 0.35);
+      if (mjg_chance(r, 0.5)) mjg_quat(r, g->quat);
+      g->margin = mjg_chance(r, 0.75) ? bm : (mjg_chance(r, 0.5) ? 0 : mjg_range(r, 0.0, 0.3));
+      if (mjg_chance(r, 0.2)) g->gap = mjg_range(r, 0, 0.1);
+      if (mjg_chance(r, 0.15)) { g->contype = 1 + mjg_int(r, 3); g->conaffinity = 1 + mjg_int(r, 3); }
+      for (int i = 0; i < 3; i++) lpos[k][i] = g->pos[i];
+      double sz0 = g->size[0], sz1 = g->size[1], sz2 = g->size[2];
+      lr[k] = g->type == mjGEOM_SPHERE ? sz0 : g->type == mjGEOM_CAPSULE ? sz0 + sz1 : g->type == mjGEOM_CYLINDER ? sqrt(sz0 * sz0 + sz1 * sz1)
+            : g->type == mjGEOM_ELLIPSOID ? fmax(sz0, fmax(sz1, sz2)) : sqrt(sz0 * sz0 + sz1 * sz1 + sz2 * sz2);
+      lm[k] = g->margin + g->gap;
+    }
+    if (mjg_chance(r, 0.3)) random_inertial(r, body);
+    // placement: geom ka of this body at a chosen surface distance from an earlier geom
+    double bpos[3] = {0, 0, 0};
+    if (ng_all > 0) {
+      int ka = mjg_int(r, ng), kb = mjg_int(r, ng_all);
+      double dir[3]; do { for (int i = 0; i < 3; i++) dir[i] = mjg_range(r, -1, 1); } while (mju_norm3(dir) < 0.2);
+      mju_normalize3(dir);
+      double f = mjg_chance(r, 0.55) ? mjg_range(r, 0.45, 1.02) : mjg_range(r, -0.6, 1.2);
+      double dist = gr[kb] + lr[ka] + f * (gm[kb] + lm[ka]) - (mjg_chance(r, 0.2) ? mjg_range(r, 0, 0.1) : 0);
+      double off[3]; mju_rotVecQuat(off, lpos[ka], q);
+      for (int i = 0; i < 3; i++) bpos[i] = gc[kb][i] + dist * dir[i] - off[i];
+    }
+    for (int i = 0; i < 3; i++) body->pos[i] = bpos[i];
+    for (int k = 0; k < ng && ng_all < 256; k++) {
+      double off[3]; mju_rotVecQuat(off, lpos[k], q);
+      for (int i = 0; i < 3; i++) gc[ng_all][i] = bpos[i] + off[i];
+      gr[ng_all] = lr[k]; gm[ng_all] = lm[k]; ng_all++;
+    }
+  }
+  return s;
+}
+
+// "sweep" scenes (nb <= -100): two free two-sphere bodies A, B (margins mA, mB) whose facing spheres are at surface distance
+// max(mA,mB) + u * min(mA,mB), i.e. inside the contact-inclusion distance mA + mB but beyond either single margin, a single-sphere
+// body C on the other side of A, and a margin-less body D just outside B
+static mjSpec* sweep_spec(int k) {
+  static const double tab[8][3] = {{0.1, 0.1, 0.5}, {0.05, 0.2, 0.3}, {0.2, 0.05, 0.7}, {0.3, 0.3, 0.2}, {0.1, 0.1, 0.9}, {0.15, 0.02, 0.5},
+                                   {0.1, 0.1, 1.2}, {0.0, 0.2, 0.5}};
+  double mA = tab[k % 8][0], mB = tab[k % 8][1], u = tab[k % 8][2];
+  double sdist = fmax(mA, mB) + u * fmin(mA, mB);
+  mjSpec* s = mj_makeSpec(); s->memory = 1 << 26;
+  mjsBody* world = mjs_findBody(s, "world");
+  const double xs[4] = {0, 0.2 + sdist, -(0.2 + 0.5 * (mA + 0.1)), 0.2 + sdist + 0.2 + 0.05};
+  const double mg[4] = {mA, mB, 0.1, 0.0};
+  const int ngs[4] = {2, 2, 1, 2};
+  int ngeom = 0; char nm[32];
+  for (int b = 0; b < 4; b++) {
+    mjsBody* body = mjs_addBody(world, NULL); bname(nm, b); mjs_setName(body->element, nm);
+    body->pos[0] = xs[b]; body->pos[2] = 1 + (b == 2 ? 0.3 : 0);
+    mjsJoint* j = mjs_addJoint(body, NULL); j->type = mjJNT_FREE;
+    for (int g = 0; g < ngs[b]; g++) {
+      mjsGeom* ge = mjs_addGeom(body, NULL); gname(nm, ngeom++); mjs_setName(ge->element, nm);
+      ge->type = mjGEOM_SPHERE; ge->size[0] = 0.1; ge->margin = mg[b];
+      if (ngs[b] == 2) ge->pos[2] = g ? 0.3 : -0.3;
+    }
+  }
   return s;
 }
 
@@ -173,6 +273,7 @@ static mjSpec* chain_spec(uint64_t seed) {
     j->type = (k == 0) ? (mjg_chance(r, 0.6) ? mjJNT_FREE : mjJNT_HINGE) : (mjg_chance(r, 0.5) ? mjJNT_HINGE : mjJNT_SLIDE);
     if (j->type != mjJNT_FREE) { j->axis[0] = mjg_range(r, -1, 1); j->axis[1] = mjg_range(r, -1, 1); j->axis[2] = 1; }
     add_geoms(r, L, 1 + mjg_int(r, 2), &ngeom, 0, sz);
+    if (mjg_chance(r, 0.25)) random_inertial(r, L);
     mjsBody* tip = L;
     int ntool = mjg_int(r, 3);
     for (int t = 0; t < ntool; t++) {           // jointless bodies welded to L
@@ -197,8 +298,8 @@ static void scene_state(const mjModel* m, mjData* d, uint64_t seed) {
   for (int j = 0; j < m->njnt; j++) {
     int a = m->jnt_qposadr[j];
     switch (m->jnt_type[j]) {
-      case mjJNT_FREE: { for (int i = 0; i < 3; i++) d->qpos[a + i] = m->qpos0[a + i] + mjg_range(r, -0.15, 0.15);
-                         double q[4]; mjg_quat(r, q); for (int i = 0; i < 4; i++) d->qpos[a + 3 + i] = q[i]; } break;
+      case mjJNT_FREE: { for (int i = 0; i < 3; i++) d->qpos[a + i] = m->qpos0[a + i] + g_jscale * mjg_range(r, -0.15, 0.15);
+                         double q[4]; mjg_quat(r, q); if (g_jscale > 0) for (int i = 0; i < 4; i++) d->qpos[a + 3 + i] = q[i]; } break;
       case mjJNT_BALL: { double q[4]; mjg_quat(r, q); for (int i = 0; i < 4; i++) d->qpos[a + i] = q[i]; } break;
       default: d->qpos[a] = m->qpos0[a] + g_jscale * mjg_range(r, -0.6, 0.6);
     }
@@ -236,12 +337,12 @@ static int bp_frame(const mjModel* m, mjData* d, mjtNum frame[9]) {
 }
 
 static void run_scene(uint64_t seed, int nb, int dsbl, int enbl, double omargin) {
-  mjSpec* s = nb > 0 ? scene_spec(seed, nb) : chain_spec(seed);      // nb = 0: chain scene
+  mjSpec* s = nb > 0 ? scene_spec(seed, nb) : nb == 0 ? chain_spec(seed) : nb > -100 ? margin_spec(seed, -nb) : sweep_spec(-nb - 100);   // nb = 0: chain scene, nb < 0: margin scene
   mjModel* m = mj_compile(s, NULL);
-  if (!m) { printf("SCENE fail\nEND\n"); mj_deleteSpec(s); return; }
+  if (!m) { { char eb[300]; snprintf(eb, sizeof(eb), "%s", mjs_getError(s)); for (char* q = eb; *q; q++) if (*q == '\n') *q = ' '; printf("SCENE fail %s\nEND\n", eb); } mj_deleteSpec(s); return; }
   m->opt.disableflags = dsbl; m->opt.enableflags = enbl; m->opt.o_margin = omargin;
   mjData* d = mj_makeData(m);
-  g_jscale = nb > 0 ? 1.0 : 0.2;
+  g_jscale = nb > 0 ? 1.0 : nb == 0 ? 0.2 : 0.0;
   scene_state(m, d, seed);
   if (MJG_TRY) {
     // position stage up to collision only (mj_forward's constraint stage rejects explicit pairs between static bodies)
@@ -294,14 +395,21 @@ static void run_scene(uint64_t seed, int nb, int dsbl, int enbl, double omargin)
       mjtNum margin = (enbl & mjENBL_OVERRIDE) ? omargin : m->geom_margin[g1] + m->geom_margin[g2];
       mjtNum gap = m->geom_gap[g1] + m->geom_gap[g2];
       int n = narrow(m, d, g1, g2, margin + gap);
-      if (n != 0) printf(" %d:%d:%d", g1, g2, n);
+      // second opinion on "within margin": mj_geomDistance (GJK for box-box / convex pairs, where the SAT-based narrow phase may
+      // report a contact although the geoms are farther apart than the margin)
+      //   2 = within margin (the property's "within margin": an active contact), 1 = only within margin + gap (inactive contact)
+      if (n != 0) {
+        mjtNum gd = n > 0 ? mj_geomDistance(m, d, g1, g2, margin + gap + 1, NULL) : 0;
+        printf(" %d:%d:%d:%d", g1, g2, n, n > 0 ? (gd < margin ? 2 : gd < margin + gap ? 1 : 0) : 0);
+      }
     }
   printf("\n");
   printf("NP");
   for (int k = 0; k < m->npair; k++) {
     mjtNum margin = (enbl & mjENBL_OVERRIDE) ? omargin : m->pair_margin[k];
     int n = narrow(m, d, m->pair_geom1[k], m->pair_geom2[k], margin + m->pair_gap[k]);
-    printf(" %d:%d", k, n);
+    mjtNum gd = n > 0 ? mj_geomDistance(m, d, m->pair_geom1[k], m->pair_geom2[k], margin + m->pair_gap[k] + 1, NULL) : 0;
+    printf(" %d:%d:%d", k, n, n > 0 ? (gd < margin ? 2 : gd < margin + m->pair_gap[k] ? 1 : 0) : 0);
   }
   printf("\n");
   // broad phase: AAMMs in the replicated frame, mj_SAP on them, and mj_broadphase itself
